@@ -32,6 +32,17 @@ pub fn strings(width: usize) -> Vec<(String, String)> {
             out.push((format!("mixed lead{lead} x{n}"), s));
         }
     }
+    for lead in 0..4usize {
+        for n in 1..=(top / 2 + 2) {
+            // a run of double-byte characters behind 0..3 single bytes: the cut falls on a lead byte,
+            // on a trail byte and between characters
+            out.push((format!("kanji lead{lead} x{n}"), format!("{}{}", "x".repeat(lead), "\u{65e5}".repeat(n))));
+        }
+        for n in 1..=(top + 2) {
+            // carets (each is written as a caret pair when escaped by the caller; here raw)
+            out.push((format!("colour-codes lead{lead} x{n}"), format!("{}{}", "x".repeat(lead), "^1a".repeat(n / 3 + 1).chars().take(n).collect::<String>())));
+        }
+    }
     // white space and control characters are ordinary text: nothing may trim or normalise them
     for t in [" ", "  ", " a", "a ", " a ", "a  b", "\t", "a\tb", "a\u{7f}", "\u{1}x", "x\r\n", "~{}[]"] {
         out.push((format!("ascii-odd {t:?}"), t.to_string()));
